@@ -1081,6 +1081,7 @@ func (sr *sentRun) replicaPath(spec CallSpec) bool {
 
 func (sr *sentRun) judge() {
 	e, s, out, p := sr.e, sr.e.sim, sr.e.out, sr.p
+	judgeFrontEndRetries(e, "sentinel")
 	// the predicate the client was given answered as the plan says (harness self-check)
 	if sr.mode == "split" {
 		want := map[string]bool{}
